@@ -6,8 +6,9 @@
 // (which notifies the blob hub the handler hooked), a gate destination (a
 // memory gate store, or a real index.Index over a gate KV) and a shared
 // persistent queue KV.  Scenarios (upload history, destination / source
-// failure patterns per attempt, crash points, restarts) come from SyncGen.tla
-// or from a seeded random generator.  Every handler incarnation has its own
+// failure patterns per attempt, crash points, restarts; burst family: up to
+// 100 distinct blobs pending at once behind a destination that is down or a
+// stalled pass) come from SyncGen.tla or from a seeded random generator.  Every handler incarnation has its own
 // gate.Plan over the same durable backing; a crash freezes the incarnation's
 // plan for good (every later lower-layer call fails without effect) and a
 // restart creates a new handler over the same queue.
@@ -54,6 +55,14 @@ type Phase struct {
 	// scenario into one run per lower-layer call k of this phase: FreezeAt = k), "at" (Freeze = k, expanded form)
 	Crash  string `json:"crash"`
 	Freeze int    `json:"freeze"`
+	// Burst family.  Hold: outcome of every destination write beyond Dst until the heal mark ("" = ok): the
+	// destination is down for the whole incarnation, so everything uploaded stays pending (an incarnation that is
+	// not the last one is killed as soon as its uploads returned: there is nothing to wait for).  Stall: the first
+	// destination write of the incarnation does not return before the uploads of the incarnation have: a pass is
+	// in progress while the rest becomes pending, and the next pass finds all of it at once (an incarnation that
+	// is not the last one is killed while the write is still stalled).
+	Hold  string `json:"hold,omitempty"`
+	Stall bool   `json:"stall,omitempty"`
 }
 
 type Scn struct {
@@ -67,8 +76,10 @@ type Scn struct {
 }
 
 const (
-	nWorld   = 4  // ids 1..4: scenario blobs (index configuration: key, permanode, two claims)
-	maxBlob  = 40 // ids 5..40: wake-up blobs
+	nWorld   = 4   // ids 1..4: scenario blobs (index configuration: key, permanode, two claims)
+	stdBlob  = 40  // ids 5..40: wake-up blobs of the scenarios with at most nWorld blobs (Trace_Sync: Blobs = 1..40)
+	maxBlob  = 120 // burst scenarios (n > nWorld): ids 1..n scenario blobs, n+1..120 wake-up blobs (Blobs = 1..120)
+	maxBurst = 100 // largest n: at least 20 wake-up blobs are left
 	watchdog = 3 * time.Second
 )
 
@@ -188,6 +199,8 @@ type dstSto struct {
 	mu     sync.Mutex
 	n      int
 	pat    []string
+	hold   string        // outcome beyond pat until healed ("" = ok)
+	stall  chan struct{} // non-nil: the first receive waits until it is closed (or the process died)
 	healed bool
 }
 
@@ -207,9 +220,21 @@ func (d *dstSto) ReceiveBlob(ctx context.Context, br blob.Ref, r io.Reader) (blo
 	o := "ok"
 	if !d.healed && d.n < len(d.pat) {
 		o = d.pat[d.n]
+	} else if !d.healed && d.hold != "" {
+		o = d.hold
 	}
+	first := d.n == 0
 	d.n++
 	d.mu.Unlock()
+	if first && d.stall != nil {
+		for stalled := true; stalled && !d.plan.Frozen(); {
+			select {
+			case <-d.stall:
+				stalled = false
+			case <-time.After(50 * time.Microsecond):
+			}
+		}
+	}
 	if o == "error" {
 		io.Copy(io.Discard, r)
 		d.lg.Emit(gate.Event{"ev": "recv", "b": d.id(br), "res": "error"})
@@ -362,6 +387,7 @@ type run struct {
 	acked  map[int]bool
 	tried  map[int]bool
 	nextWk int
+	lastWk int
 	qmu    sync.Mutex
 	calls  []int // lower-layer calls of each phase (dry run)
 	wakes  int
@@ -402,7 +428,10 @@ func (r *run) start(ph *Phase) bool {
 		fatal(fmt.Errorf("run %d: starting an incarnation failed although nothing was frozen: %v", r.scn.ID, err))
 		return false
 	}
-	inc.dst = &dstSto{fl: r.fl, lg: r.lg, id: r.u.id, plan: inc.plan, pat: ph.Dst}
+	inc.dst = &dstSto{fl: r.fl, lg: r.lg, id: r.u.id, plan: inc.plan, pat: ph.Dst, hold: ph.Hold}
+	if ph.Stall {
+		inc.dst.stall = make(chan struct{})
+	}
 	if r.scn.Cfg == "index" {
 		kv := gate.NewKV("ixkv", r.ixBack, inc.plan, nil)
 		ix, err := newIndex(kv, inc.plan)
@@ -645,7 +674,7 @@ func (r *run) await(cond func() bool, wd time.Duration, needWork func() bool) bo
 		if n := r.lg.Len(); n != last {
 			last, idleEff = n, 0
 		} else if idleEff += d; idleEff > idle && needWork() {
-			if r.nextWk <= maxBlob {
+			if r.nextWk <= r.lastWk {
 				id := r.nextWk
 				r.nextWk++
 				r.wakes++
@@ -657,6 +686,20 @@ func (r *run) await(cond func() bool, wd time.Duration, needWork func() bool) bo
 				idle = 150 * time.Millisecond
 			}
 			last, idleEff, prev = r.lg.Len(), 0, time.Now()
+		}
+		time.Sleep(100 * time.Microsecond)
+	}
+}
+
+// quiesce waits (bounded) until nothing has happened at the gates for a while.
+func (r *run) quiesce(inc *incarnation) {
+	dl := time.Now().Add(2 * time.Second)
+	last, since := r.lg.Len(), time.Now()
+	for time.Now().Before(dl) && !inc.plan.Frozen() {
+		if n := r.lg.Len(); n != last || r.fl.n.Load() != 0 {
+			last, since = n, time.Now()
+		} else if time.Since(since) > 3*time.Millisecond {
+			return
 		}
 		time.Sleep(100 * time.Microsecond)
 	}
@@ -730,9 +773,16 @@ func (r *run) exec() {
 				r.uploadNote(inc, id)
 			}
 		}
+		if inc.dst.stall != nil && last {
+			close(inc.dst.stall)
+		}
 		if !last {
-			// let the incarnation work until it dies at its crash point, or has nothing left to do
-			r.await(r.settled(), watchdog/2, r.undelivered)
+			// let the incarnation work until it dies at its crash point, or has nothing left to do (it never
+			// has while its destination is down or its first write is stalled: it is then killed at once,
+			// with everything pending)
+			if ph.Hold == "" && !ph.Stall {
+				r.await(r.settled(), watchdog/2, r.undelivered)
+			}
 			r.calls = append(r.calls, inc.plan.Calls())
 			if !r.crashed() {
 				r.kill()
@@ -753,6 +803,9 @@ func (r *run) exec() {
 		}
 		// last phase: let the armed faults be used up (best effort), heal, wait (bounded) for delivery
 		r.await(func() bool { return inc.src.consumed() && inc.dst.consumed() }, watchdog, func() bool { return true })
+		if ph.Hold != "" {
+			r.quiesce(inc) // the copy loop has tried what is pending and sleeps: the heal finds all of it pending
+		}
 		inc.src.mu.Lock()
 		inc.src.healed = true
 		inc.src.mu.Unlock()
@@ -887,8 +940,15 @@ func runOne(scn *Scn) []int {
 	if scn.Cfg == "index" {
 		u = uniIx
 	}
+	if scn.N > maxBurst {
+		fatal(fmt.Errorf("scenario %d: n = %d > %d", scn.ID, scn.N, maxBurst))
+	}
 	r := &run{scn: scn, u: u, lg: gate.NewLog(), fl: &flight{}, srcMem: gate.NewMemStore(), dstMem: gate.NewMemStore(),
-		qBack: sorted.NewMemoryKeyValue(), ixBack: sorted.NewMemoryKeyValue(), acked: map[int]bool{}, tried: map[int]bool{}, nextWk: nWorld + 1}
+		qBack: sorted.NewMemoryKeyValue(), ixBack: sorted.NewMemoryKeyValue(), acked: map[int]bool{}, tried: map[int]bool{},
+		nextWk: nWorld + 1, lastWk: stdBlob}
+	if scn.N > nWorld {
+		r.nextWk, r.lastWk = scn.N+1, maxBlob
+	}
 	r.exec()
 	nWake.Add(int64(r.wakes))
 	emitRun(scn, project(r.lg.Events()))
@@ -935,7 +995,54 @@ func randomScn(rng *rand.Rand, id int) *Scn {
 	return s
 }
 
+// randomBurst: a seeded random member of the burst family (SyncGen.tla, BInit) with sizes, cuts and crash
+// points the enumerated family does not have.
+func randomBurst(rng *rand.Rand, id int) *Scn {
+	sizes := []int{9, 10, 11, 12, 13, 14, 17, 18, 19, 20, 21, 22, 25, 30, 40, 60, 80, maxBurst}
+	n := sizes[rng.Intn(len(sizes))]
+	if rng.Intn(3) == 0 {
+		n = 5 + rng.Intn(maxBurst-4)
+	}
+	s := &Scn{Cfg: "mem", N: n, Pool: []int{1, 2, 5}[rng.Intn(3)], ID: id}
+	holds := []string{"error", "error", "after", "wrongsize"}
+	ups := func(a, b int) []int {
+		u := []int{}
+		for i := a; i <= b; i++ {
+			u = append(u, i)
+		}
+		rng.Shuffle(len(u), func(i, j int) { u[i], u[j] = u[j], u[i] })
+		return u
+	}
+	np := 1 + rng.Intn(3)
+	cut := 0
+	for p := 0; p < np; p++ {
+		ph := Phase{Crash: "quiet", Par: rng.Intn(2) == 0}
+		to := n
+		if p < np-1 && rng.Intn(2) == 0 {
+			to = cut + rng.Intn(n-cut+1)
+		}
+		ph.Ups = ups(cut+1, to)
+		cut = to
+		switch rng.Intn(4) {
+		case 0:
+			ph.Hold = holds[rng.Intn(len(holds))]
+		case 1:
+			ph.Stall = true
+		case 2:
+			ph.Hold, ph.Stall = holds[rng.Intn(len(holds))], true
+		}
+		if p == np-1 {
+			ph.Crash = "none"
+		} else if rng.Intn(2) == 0 {
+			ph.Crash, ph.Freeze = "at", 1+rng.Intn(5*len(ph.Ups)+10)
+		}
+		s.Phases = append(s.Phases, ph)
+	}
+	return s
+}
+
 func main() {
+	burst := flag.Bool("burst", false, "with -random: random members of the burst family")
 	scnF := flag.String("scn", "", "scenarios (JSON lines) from SyncGen")
 	only := flag.String("only", "", "one expanded scenario (JSON)")
 	out := flag.String("out", "trace.ndjson", "trace output")
@@ -979,7 +1086,12 @@ func main() {
 	} else if *random > 0 {
 		rng := rand.New(rand.NewSource(*seed))
 		for i := 0; i < *random; i++ {
-			s := randomScn(rng, i)
+			var s *Scn
+			if *burst {
+				s = randomBurst(rng, i)
+			} else {
+				s = randomScn(rng, i)
+			}
 			if s.Cfg == "index" && uniIx == nil {
 				s.Cfg = "mem"
 			}
